@@ -1145,6 +1145,11 @@ lyb_print_node_leaflist(struct ly_out *out, const struct lyd_node *node, struct 
         /* write leaf data */
         LY_CHECK_RET(lyb_print_node_leaf(out, node, lybctx));
         *printed_node = node;
+
+        if (!lyd_parent(node) && !(lybctx->print_options & LYD_PRINT_WITHSIBLINGS)) {
+            /* only this top-level instance is being printed */
+            break;
+        }
     }
 
     /* finish this sibling */
@@ -1186,6 +1191,11 @@ lyb_print_node_list(struct ly_out *out, const struct lyd_node *node, struct lyd_
         LY_CHECK_RET(lyb_print_siblings(out, lyd_child(node), lybctx));
 
         *printed_node = node;
+
+        if (!lyd_parent(node) && !(lybctx->print_options & LYD_PRINT_WITHSIBLINGS)) {
+            /* only this top-level instance is being printed */
+            break;
+        }
     }
 
     /* finish this sibling */
